@@ -55,6 +55,7 @@ func runTunnel(r Round) *outcome {
 	mgr := ctunnel.NewTunnelManager(parent, role)
 	app, local := vkit.NewBufConnPair("127.0.0.1:40001", "127.0.0.1:8080")
 	peer, tun := vkit.NewBufConnPair("10.0.0.9:7000", "10.0.0.1:8000")
+	defer func() { app.Close(); peer.Close(); local.Close(); tun.Close() }()
 	var rwcCloses atomic.Int32
 	rwc, err := iocopy.NewReadWriteCloserWithCloseWrite(tun, tun, func() error { rwcCloses.Add(1); return tun.Close() }, tun.CloseWrite)
 	if err != nil {
@@ -198,7 +199,7 @@ func runTunnel(r Round) *outcome {
 		o.failf("C16/client-tunnel/conn-left-open", "local closed=%v tunnel closed=%v after Close", local.IsClosed(), tun.IsClosed())
 	}
 	if leaks != nil {
-		o.failf("C16/client-tunnel/goroutine-leak/"+leakKeyPart(leaks[0]), "goroutines remain 2s after Close returned and both far ends were closed: %v", leaks)
+		o.failf("C16/client-tunnel/goroutine-leak/"+leakKeyPart(leaks[0]), "goroutines remain 2s after Close returned and both far ends were closed: %s", leakMsg(leaks))
 	}
 	// later operations fail cleanly
 	rc2 := newRace("client-tunnel")
